@@ -126,6 +126,61 @@ spec fn types_pre_of(a: ast::Aidl) -> Seq<ast::Type> {
     }
 }
 
+// ---- the kinds of the nodes in the same (parent first) order: what the callback left behind, read off the final tree ----
+spec fn kpre(t: ast::Type) -> Seq<ast::TypeKind>
+    decreases t, t.generic_types@.len() + 1
+{ seq![t.kind] + kpre_kids(t, t.generic_types@.len() as int) }
+spec fn kpre_kids(t: ast::Type, n: int) -> Seq<ast::TypeKind>
+    decreases t, n
+{ if n <= 0 || n > t.generic_types@.len() { Seq::<ast::TypeKind>::empty() } else { kpre_kids(t, n - 1) + kpre(t.generic_types@[n - 1]) } }
+spec fn kpre_args(args: Seq<ast::Arg>, n: int) -> Seq<ast::TypeKind>
+    decreases n
+{ if n <= 0 { Seq::<ast::TypeKind>::empty() } else { kpre_args(args, n - 1) + kpre(args[n - 1].arg_type) } }
+spec fn kpre_iface_el(el: ast::InterfaceElement) -> Seq<ast::TypeKind> {
+    match el {
+        ast::InterfaceElement::Method(m) => kpre(m.return_type) + kpre_args(m.args@, m.args@.len() as int),
+        ast::InterfaceElement::Const(c) => kpre(c.const_type),
+    }
+}
+spec fn kpre_parc_el(el: ast::ParcelableElement) -> Seq<ast::TypeKind> {
+    match el { ast::ParcelableElement::Field(f) => kpre(f.field_type), ast::ParcelableElement::Const(c) => kpre(c.const_type) }
+}
+spec fn kpre_iface(els: Seq<ast::InterfaceElement>, n: int) -> Seq<ast::TypeKind>
+    decreases n
+{ if n <= 0 { Seq::<ast::TypeKind>::empty() } else { kpre_iface(els, n - 1) + kpre_iface_el(els[n - 1]) } }
+spec fn kpre_parc(els: Seq<ast::ParcelableElement>, n: int) -> Seq<ast::TypeKind>
+    decreases n
+{ if n <= 0 { Seq::<ast::TypeKind>::empty() } else { kpre_parc(els, n - 1) + kpre_parc_el(els[n - 1]) } }
+spec fn kinds_pre_of(a: ast::Aidl) -> Seq<ast::TypeKind> {
+    match a.item {
+        ast::Item::Interface(i) => kpre_iface(i.elements@, i.elements@.len() as int),
+        ast::Item::Parcelable(p) => kpre_parc(p.elements@, p.elements@.len() as int),
+        ast::Item::Enum(_) => Seq::<ast::TypeKind>::empty(),
+    }
+}
+// a prefix of the listing does not depend on what comes later (the walker changes element k after listing 0..k)
+// (the two indices are separate variables so that the solver may match `k` against `k + 1 - 1`)
+proof fn lemma_kpre_kids_frame(a: ast::Type, b: ast::Type, n: int, m: int)
+    requires n == m, a.generic_types@.len() == b.generic_types@.len(), forall |j: int| 0 <= j < n ==> a.generic_types@[j] == b.generic_types@[j]
+    ensures kpre_kids(a, n) == kpre_kids(b, m)
+    decreases n
+{ if 0 < n <= a.generic_types@.len() { lemma_kpre_kids_frame(a, b, n - 1, n - 1); } }
+proof fn lemma_kpre_args_frame(a: Seq<ast::Arg>, b: Seq<ast::Arg>, n: int, m: int)
+    requires n == m, forall |j: int| 0 <= j < n ==> a[j] == b[j]
+    ensures kpre_args(a, n) == kpre_args(b, m)
+    decreases n
+{ if 0 < n { lemma_kpre_args_frame(a, b, n - 1, n - 1); } }
+proof fn lemma_kpre_iface_frame(a: Seq<ast::InterfaceElement>, b: Seq<ast::InterfaceElement>, n: int, m: int)
+    requires n == m, forall |j: int| 0 <= j < n ==> a[j] == b[j]
+    ensures kpre_iface(a, n) == kpre_iface(b, m)
+    decreases n
+{ if 0 < n { lemma_kpre_iface_frame(a, b, n - 1, n - 1); } }
+proof fn lemma_kpre_parc_frame(a: Seq<ast::ParcelableElement>, b: Seq<ast::ParcelableElement>, n: int, m: int)
+    requires n == m, forall |j: int| 0 <= j < n ==> a[j] == b[j]
+    ensures kpre_parc(a, n) == kpre_parc(b, m)
+    decreases n
+{ if 0 < n { lemma_kpre_parc_frame(a, b, n - 1, n - 1); } }
+
 // ---- what the mutable type walker does to a tree: every type node is replaced as the callback's step allows, its
 // children likewise; nothing else changes. `step` relates a node as offered to the node as the callback leaves it
 // (the callback keeps the children, so the node as left is the final node with the offered children put back). ----
